@@ -274,7 +274,10 @@ func evaluateNotPresent(ptr pointerstructure.Pointer, datum interface{}) bool {
 	ptr.Parts = ptr.Parts[0 : len(ptr.Parts)-1]
 
 	val, _ := ptr.Get(datum)
-	return reflect.ValueOf(val).Kind() == reflect.Map
+	// pointerstructure walks through pointers, so the parent may be a
+	// pointer to the map the key is missing from
+	parent, _ := derefValue(reflect.ValueOf(val))
+	return parent.Kind() == reflect.Map
 }
 
 // getValue resolves path to the value it references by first looking into the
